@@ -170,7 +170,12 @@ def worker(arg):
     # a substance keeps the density it was created with: re-configuring the defaults afterwards must not change its factors
     olds, olde = pp.config.default_solid_density, pp.config.default_enzyme_density
     solid, enz = mk(pp, SUBST[0]), mk(pp, SUBST[6])
-    want = {(fu, tu): [U.convert_from(sub_, 2.5, fu, tu) for sub_ in (solid, enz)]
+    def conv(sub_, fu, tu):
+        try:
+            return U.convert_from(sub_, 2.5, fu, tu)
+        except ValueError:
+            return 'ValueError'          # a volume of a substance without volume (infinite density) is refused
+    want = {(fu, tu): [conv(sub_, fu, tu) for sub_ in (solid, enz)]
             for fu in ('g', 'mL', 'L') for tu in ('uL', 'L', 'mg', 'g')}
     try:
         pp.config.default_solid_density = 0.4 if olds != 0.4 else 0.7
@@ -178,14 +183,36 @@ def worker(arg):
         for (fu, tu), w in want.items():
             for sub_, kind, w1 in ((solid, 'solid', w[0]), (enz, 'enzyme', w[1])):
                 n += 1
-                got = U.convert_from(sub_, 2.5, fu, tu)
-                if not (got == w1 or abs(got - w1) <= 1e-12 * abs(w1)):
+                got = conv(sub_, fu, tu)
+                if not (got == w1 or (not isinstance(got, str) and not isinstance(w1, str) and abs(got - w1) <= 1e-12 * abs(w1))):
                     viols.append(V(f"Unit.convert_from | depends-on-later-configuration | kind={kind}",
                                    f"convert_from({sub_.name}, 2.5, {fu!r}, {tu!r}) was {w1!r} and became {got!r} after the default "
                                    f"densities were re-configured, although the substance's own density is unchanged",
                                    {'cfg': cfg, 'reconfigure': True}, w1, got))
     finally:
         pp.config.default_solid_density, pp.config.default_enzyme_density = olds, olde
+    # stored amount -> "standard format" (value, unit): the unit is grams for a solid, litres for a liquid, U for an enzyme, with
+    # a prefix chosen by magnitude; value x unit must be the amount that the stored number stands for
+    for spec in SUBST:
+        s_ = mk(pp, spec)
+        rs_ = ref.rsub(s_)
+        base_ = {'solid': 'g', 'liquid': 'L', 'enzyme': 'U'}[rs_.kind]
+        for stored in (1e6, 12345.678, 2.5, 1.0, 1e-3, 3.7e-5):
+            n += 1
+            try:
+                val, unit = U.convert_from_storage_to_standard_format(s_, stored)
+                pfx, b = ref.split_unit(unit)
+                got = float(F(val) * pfx) if b == base_ else None
+            except Exception as e:  # noqa
+                val, unit, got = type(e).__name__, '', None
+            want = float(ref.base_amount(pp, rs_, stored) * ref.per_base(rs_, base_))
+            if rs_.kind != 'enzyme' and rs_.rho is None and base_ == 'L':
+                continue
+            if got is None or abs(got - want) > 1e-9 * abs(want) + 10.0 ** -pp.config.internal_precision * float(ref.split_unit(unit)[0] if unit else 1):
+                viols.append(V(f"Unit.convert_from_storage_to_standard_format | wrong-amount | kind={rs_.kind}",
+                               f"convert_from_storage_to_standard_format({spec[1]} {spec[2:]}, {stored!r}) = ({val!r}, {unit!r}), the stored "
+                               f"number stands for {want!r} {base_}", {'cfg': cfg, 'spec': spec, 'stored': stored}, want, got))
+                break
     # storage conversions
     pm, pv = ref.storage_prefix(pp, 'mol'), ref.storage_prefix(pp, 'L')
     for p in PREFIXES:
